@@ -181,10 +181,6 @@ def run_property(pid, tier):
         for h in lst:
             r = res.get(h['name'])
             verdict, reason = evaluate(h, r)
-            if h.get('expected') == 'fails':
-                # a recorded finding: failing is the expected state; passing is fine too
-                if verdict == 'fail':
-                    verdict, reason = 'known-fail', reason
             rec = dict(harness=h['name'], mode=mode, config=h.get('config'), kind=h.get('kind', 'value'), verdict=verdict, reason=reason,
                        checks=(r or {}).get('checks'), covers=(r or {}).get('covers'), covers_sat=(r or {}).get('covers_sat'), time_s=(r or {}).get('time_s'),
                        failed_checks=(r or {}).get('failed_checks', [])[:5], inputs=h.get('inputs'))
